@@ -155,6 +155,11 @@ def _apply_rules(ed: _Edit, toks, lo, hi, repo, opts, rules, dropped, file):
                     bump('X3-attr')
                     p = pos[c] + 1
                     continue
+                if head == 'derive' and 'drop_derive' in opts:
+                    ed.blank(k, c)
+                    bump('X3-derive')
+                    p = pos[c] + 1
+                    continue
                 if head == 'cfg':
                     keep = _eval_cfg(inner, features)
                     if keep is None:
